@@ -2,6 +2,8 @@
 import itertools
 from fractions import Fraction
 
+import math
+
 import numpy as np
 from hypothesis import strategies as st
 
@@ -20,7 +22,7 @@ RULE = ("(1) exhaustive enumeration of all k-point configurations, k=1..4, "
         "exact rational brute force over the 15 vertex subsets. Non-trivial: "
         "optimum on a proper face (fewer than k support points), or a "
         "degenerate input (exact rank < k-1), or several optimal subsets.")
-ASSUMPTIONS = ["norm compared at 1e-9 relative (squared norm 2e-9), subset membership within 1e-9*scale"]
+ASSUMPTIONS = ["norm compared at 1e-9 relative with an absolute floor of 2e-9*scale (scale = max(1, largest |coordinate|)), subset membership within 1e-9*scale"]
 LATTICE = [-1.0, 0.0, 1.0]
 COUNTS = [27 ** k for k in (1, 2, 3, 4)]
 TOTAL = sum(COUNTS)
@@ -178,7 +180,15 @@ def check_points(points):
     nontrivial = nsup < k or len(optsets) > 1
 
     def norm_ok(n2):
-        return abs(n2 - optf) <= 2e-9 * max(optf, 1e-300) or abs(n2 - optf) <= 4e-18 * scale * scale
+        # 1e-9 relative on the norm, with an absolute floor of 2e-9 * scale on
+        # the norm (a relative bound on a norm of 1e-7 at coordinates of 12
+        # would ask for 1e-16 absolute). The floor used to be applied to the
+        # squared norm, which is the same at optimum 0 but up to (|v|+o)/2e-9
+        # times stricter just above it.
+        if n2 < 0.0:
+            return False
+        dn = abs(math.sqrt(n2) - math.sqrt(optf))
+        return dn <= 1e-9 * math.sqrt(optf) or dn <= 2e-9 * scale
 
     # --- Jolt
     r = run_jolt(points)
